@@ -591,8 +591,8 @@ Lemma loaded_content_wf d order : wf_descrb d = true -> named_descrb d = true ->
   wf_contentb (s_types (state_of order d)) = true.
 Proof.
   intros Hwf Hn Hord. pose proof (load_preserves_wf_state d order Hwf Hn Hord) as Hs.
-  destruct (rt_parts _ Hs) as [H1 [H2 [H3 _]]]. unfold wf_contentb. rewrite H2, H3.
-  apply DescrProofs.nodupb_NoDup in H1. rewrite H1. cbn [andb].
+  unfold wf_tsb in Hs. rewrite !andb_true_iff in Hs. destruct Hs as [[[[[H1 H2] H3] _] _] _].
+  unfold wf_contentb. rewrite H1, H2, H3. cbn [andb].
   cbn [state_of s_types]. rewrite spec_types_sel, <- chain_of_decls.
   destruct (wf_descr_parts d Hwf) as [_ [Hall _]]. unfold order_okb in Hord. apply andb_true_iff in Hord. destruct Hord as [Htopo _].
   apply sel_chain; [apply resolve_of_wf; exact Hall|exact Htopo].
